@@ -377,3 +377,86 @@ class Verdict:
         log("OK property=%s evaluations=%d distinct_nontrivial=%d states=%d traces=%d wall=%.0fs" % (
             self.prop, self.evaluations, self.distinct_nontrivial, self.states, self.traces, time.time() - self.t0))
         return 0
+
+
+# --------------------------------------------------------------------------
+# generic block-wise trace validation with drift classification
+# --------------------------------------------------------------------------
+def split_blocks(recs):
+    blocks, cur = [], None
+    for r in recs:
+        if r.get("ev") == "reset":
+            cur = [r]
+            blocks.append(cur)
+        elif cur is not None:
+            cur.append(r)
+    return blocks
+
+
+def tv_blocks(v, prop, specdir, module, const_lines, invs, trace_path, wname, conform="Conform", max_viol=5, timeout=900):
+    """Validate a recorded ndjson trace made of `reset`-separated blocks against `module` (a trace spec whose
+    position variable is `l`).  Invariants `invs` are the property-level ones (evaluated on recorded outputs);
+    `conform` is the model-conformance invariant.  A block failing only `conform` is DRIFT; a block failing a
+    property invariant is a violation.  Returns the number of blocks accepted."""
+    recs = read_ndjson(trace_path)
+    remaining = split_blocks(recs)
+    total_ok = 0
+    cfgname = "_tv_%s_%s.cfg" % (prop, wname)
+    cfgp = os.path.join(specdir, cfgname)
+
+    def write_cfg(with_conform):
+        with open(cfgp, "w") as f:
+            f.write("\n".join(const_lines + ["INIT TInit", "NEXT TNext"] +
+                              ["INVARIANT " + i for i in invs + ([conform] if with_conform and conform else [])] +
+                              ["POSTCONDITION AcceptedMsg", "CHECK_DEADLOCK FALSE", ""]))
+    rounds = 0
+    try:
+        while remaining and rounds < 60:
+            rounds += 1
+            tp = os.path.join(WORK, "%s_%s_%d.ndjson" % (wname, prop, rounds))
+            write_ndjson(tp, [r for b in remaining for r in b])
+            use_conform = len(v.drift) < 3      # after a few drift blocks the rest is checked in monitor mode only
+            write_cfg(use_conform)
+            r = validate_trace(specdir, module, cfgname, tp, "tv_%s_%s" % (prop, wname), timeout=timeout)
+            v.add_tlc(r, "TV %s round %d" % (wname, rounds))
+            if r.ok:
+                total_ok += len(remaining)
+                break
+            if r.violated is None:
+                raise ToolError("trace validation error (%s): %s\n%s" % (module, r.error, r.stdout[-3000:]))
+            ls = re.findall(r"/\\ l = (\d+)", r.stdout)
+            if not ls:
+                raise ToolError("cannot locate failing record\n" + r.stdout[-2000:])
+            lfail = int(ls[-1]) - 1
+            pos, bi = 0, None
+            for i, b in enumerate(remaining):
+                if pos < lfail <= pos + len(b):
+                    bi = i
+                    break
+                pos += len(b)
+            if bi is None:
+                raise ToolError("failing record %d outside trace" % lfail)
+            bad = remaining[bi]
+            total_ok += bi
+            if r.violated == conform:
+                tp1 = os.path.join(WORK, "%s_%s_blk.ndjson" % (wname, prop))
+                write_ndjson(tp1, bad)
+                write_cfg(False)
+                r1 = validate_trace(specdir, module, cfgname, tp1, "tv1_%s_%s" % (prop, wname), timeout=timeout)
+                if r1.ok:
+                    v.drift.append({"prop": prop, "what": "implementation differs from the transcribed model; property invariants hold on the recorded observation", "case": bad[:14]})
+                elif r1.violated:
+                    v.violations.append({"what": "invariant %s false on the recorded execution of the real code" % r1.violated, "block": bad[:60]})
+                else:
+                    raise ToolError("monitor run error: %s\n%s" % (r1.error, r1.stdout[-2000:]))
+            else:
+                v.violations.append({"what": "invariant %s false on the recorded execution of the real code" % r.violated, "block": bad[:60]})
+            remaining = remaining[bi + 1:]
+            if len(v.violations) >= max_viol:
+                break
+    finally:
+        try:
+            os.remove(cfgp)
+        except OSError:
+            pass
+    return total_ok
